@@ -64,9 +64,15 @@ CATALOGUE = [
      'old': "                    idx_start += bufr_message.length.value\n                except PyBufrKitError:",
      'new': "                    idx_start += bufr_message.length.value + 2\n                except PyBufrKitError:",
      'note': 'skipping a damaged message advances two octets too far'},
-    {'id': 'm-c12-bitread-not-library-error', 'props': ['C12'], 'file': ER,
-     'old': "class BitReadError(PyBufrKitError):", 'new': "class BitReadError(Exception):",
-     'note': 'read-past-end error no longer the library error type'},
+    {'id': 'm-c12-no-conversion-of-foreign-errors', 'props': ['C12'], 'file': D,
+     'old': "        except PyBufrKitError:\n            raise\n        except Exception as e:\n",
+     'new': "        except PyBufrKitError:\n            raise\n        except ZeroDivisionError as e:\n",
+     'note': 'reverts the repair 7f10517: IndexError / NotImplementedError under length damage escape again '
+             '(the default seed does not reach them; the regression corpus does)'},
+    {'id': 'm-c12-missing-stop-signature-tolerated', 'props': ['C12'], 'file': D,
+     'old': "        bit_reader = get_bit_reader(s)\n        bufr_message = BufrMessage(file_path)\n",
+     'new': "        bit_reader = get_bit_reader(s if s[-4:] == b'7777' else s + b'7777')\n        bufr_message = BufrMessage(file_path)\n",
+     'note': 'a message cut right before its stop signature decodes (the decoder supplies the missing 7777)'},
     {'id': 'm-c12-no-stop-signature-check', 'props': ['C12'], 'file': D,
      'old': "            if parameter.expected is not None and parameter.value != parameter.expected:\n",
      'new': "            if parameter.expected is not None and parameter.value != parameter.expected and section.get_metadata('index') != 5:\n",
